@@ -4,6 +4,7 @@
     dispatched it); every schedule of callers, reader, faults and cancellation
     is a label list. *)
 From Verif Require Import Base.Prelude Gen.Constants Model.Tdc Proofs.Tdc.
+From Verif Require Model.Reuse Proofs.Reuse.
 Open Scope N_scope.
 
 (** Once a reply has been handed to a call, the only thing that call can ever
@@ -50,6 +51,35 @@ Example c02_nonvacuous :
         [LReserve 0 11; LCheck 0; LAdd 0; LWriteBegin 0; LRecv r; LLookup; LHandoff; LRecvErr;
          LCtx 0; LWriteEnd 0 true; LArm 0; LSelect 0 SelClose; LTake 0] with
   | Some s => cres (calls s 0%nat) = Some (ROk (mkReply 7 11 100 (Some 0%nat)))
+  | None => False
+  end.
+Proof. vm_compute. reflexivity. Qed.
+
+(** * The non-pipelined transport (reuse.go, Model.Reuse) *)
+Import Model.Reuse Proofs.Reuse.
+
+(** Once the reader has handed a reply to an exchange, the only thing the call
+    can return is that reply — not the close error of an EOF right behind it,
+    not a context error, and it is not retried. *)
+Theorem c02_reuse_reply_not_lost ls s c r res :
+  xrun xinit ls = Some s -> ugot (xcalls s c) = Some r -> ures (xcalls s c) = Some res -> res = XOk r.
+Proof. exact (reuse_reply_not_lost ls s c r res). Qed.
+Print Assumptions c02_reuse_reply_not_lost.
+
+Theorem c02_reuse_delivered_call_returns_it ls s c r :
+  xrun xinit ls = Some s -> ugot (xcalls s c) = Some r -> ures (xcalls s c) = None ->
+  in_attempt (upc (xcalls s c)) = true /\ ubuf (xcalls s c) = Some r /\
+  (upc (xcalls s c) = UWaiting -> exists s', xstep s (MSelect c XSelReply) = Some s' /\ ures (xcalls s' c) = Some (XOk r)) /\
+  (forall e, upc (xcalls s c) = UExiting e -> exists s', xstep s (MTake c) = Some s' /\ ures (xcalls s' c) = Some (XOk r)).
+Proof. exact (reuse_delivered_call_returns_it ls s c r). Qed.
+Print Assumptions c02_reuse_delivered_call_returns_it.
+
+(** Non-vacuity: the reply and the EOF behind it are both processed while the
+    caller is still inside Write; the close case is taken in the wait; the call returns the reply. *)
+Example c02_reuse_nonvacuous :
+  match xrun xinit [MBegin 0; MGetIdle 0 None; MDialDone 0 true; MDialRecv 0; MInstall 0; MWriteBegin 0;
+                    MRecv 0 (mkXR 100 (Some 0%nat)); MDispatch 0; MRecvErr 0; MWriteEnd 0 true; MSelect 0 XSelClose; MTake 0] with
+  | Some s => ures (xcalls s 0%nat) = Some (XOk (mkXR 100 (Some 0%nat)))
   | None => False
   end.
 Proof. vm_compute. reflexivity. Qed.
